@@ -102,6 +102,135 @@ def option_switch(fn, local):
     return out
 
 
+def loop_form(F):
+    """how the round loop and the pass function share the work.
+    "option": the pass function is handed the previous evaluation (Option<&CompiledTx>), compares, and answers None for "same
+              as before" (the form of the code today);
+    "value":  the pass function is handed the fee to apply (an integer) and returns the evaluation; the loop compares."""
+    f = pass_body(F)
+    if typed_locals(f, OPT_REF_CT):
+        return "option"
+    own = F.body(resolver_roles(F)[1])
+    if any(t in ("u64", "u128", "usize") for n, pl in own["vars"] for t in [_var_type(own, pl)] if t):
+        return "value"
+    raise BrokenCheck("the pass function takes neither a previous evaluation (Option<&CompiledTx>) nor a fee: anchor changed")
+
+
+def _var_type(fn, pl):
+    """type of a source variable: the local's type, or the type a captured variable's field projection records"""
+    if not pl["p"]:
+        return fn["locals"][pl["l"]] if 1 <= pl["l"] <= fn["argc"] else None
+    last = pl["p"][-1]
+    return last[-1] if last[0] == "f" and pl["l"] == 1 else None
+
+
+AWAIT = ("std::future::Future::poll", "std::pin::Pin::<Ptr>::new_unchecked", "std::future::IntoFuture::into_future", "<F as std::future::IntoFuture>::into_future")
+
+
+class _Strict:
+    """a DefUse view in which variables assigned more than once (loop-carried state) have no definition: provenance stops at
+    them and names them"""
+
+    def __init__(self, du):
+        self.fn = du.fn
+        self.partial = du.partial
+        self.carried = {l for l, ds in du.defs.items() if len(ds) > 1}
+        self.defs = {l: ds for l, ds in du.defs.items() if len(ds) == 1}
+
+
+def _pass_result(F, f, o, body=None):
+    """is this origin the result of (an await of) the pass function - inside `body` when given"""
+    pfn = resolver_roles(F)[1]
+    return o.kind == "call" and (o.callee or "").startswith(pfn) and (body is None or o.bb in body)
+
+
+def equality_exit(F, f, cfg, du, calls, body, u, v):
+    """value form: is the edge u -> v the *equal* edge of a comparison between this round's evaluation and what the round was
+    fed with?  Accepted: `eval.fee == fees` (integers) where `fees` is the variable handed to the pass function, and
+    `eval == best` (CompiledTx equality) where `best.fee` is handed to the pass function; in both cases every assignment of
+    that variable inside the loop stores this round's evaluation (or its fee).  Returns a reason or None."""
+    t = f["blocks"][u]["t"]
+    if t["k"] != "switch":
+        return None
+    pl = mir.op_place(t["discr"])
+    if pl is None or pl["p"]:
+        return None
+    l = pl["l"]
+    for _ in range(6):
+        ds = du.defs.get(l, [])
+        if len(ds) == 1 and ds[0][0] == "stmt" and ds[0][3]["rv"]["k"] == "use":
+            p2 = mir.op_place(ds[0][3]["rv"]["op"])
+            if p2 is not None and not p2["p"]:
+                l = p2["l"]
+                continue
+        break
+    ds = du.defs.get(l, [])
+    if len(ds) != 1:
+        return None
+    d = ds[0]
+    negated = False
+    if d[0] == "stmt" and d[3]["rv"]["k"] == "unop" and d[3]["rv"].get("op") == "Not":
+        p2 = mir.op_place(d[3]["rv"]["a"])
+        ds2 = du.defs.get(p2["l"], []) if p2 is not None and not p2["p"] else []
+        if len(ds2) != 1:
+            return None
+        d = ds2[0]
+        negated = True
+    if d[0] == "stmt" and d[3]["rv"]["k"] == "binop" and d[3]["rv"]["op"] in ("Eq", "Ne"):
+        equal_when = d[3]["rv"]["op"] == "Eq"
+        sides = [d[3]["rv"]["a"], d[3]["rv"]["b"]]
+        whole = False
+    elif d[0] == "call" and (d[3].get("callee") or "") in ("std::cmp::PartialEq::eq", "std::cmp::PartialEq::ne") and len(d[3]["args"]) == 2:
+        if "CompiledTx" not in (d[3].get("resolved") or "") + " ".join(d[3].get("gargs") or []):
+            return None
+        equal_when = d[3]["callee"].endswith("::eq")
+        sides = d[3]["args"]
+        whole = True
+    else:
+        return None
+    if negated:
+        equal_when = not equal_when
+    tm = dict((a, b2) for a, b2 in t["targets"])
+    false_t = tm.get(0, t["otherwise"])
+    true_t = t["otherwise"] if 0 in tm else tm.get(1, t["otherwise"])
+    if v != (true_t if equal_when else false_t):
+        return None
+    strict = _Strict(du)
+    new_side = prev = None
+    for i, sd in enumerate(sides):
+        org = mir.provenance(f, strict, sd, transparent_extra=AWAIT)
+        if org and all(_pass_result(F, f, o, body) and (whole or ".fee" in o.proj) for o in org):
+            new_side = i
+        elif len(org) == 1 and org[0].kind == "local" and org[0].local in strict.carried and (whole or f["locals"][org[0].local] in ("u64",) or ".fee" in org[0].proj):
+            prev = org[0]
+    if new_side is None or prev is None:
+        return None
+    # what the round was fed with is that variable (its fee)
+    fed = False
+    for cb, ct in calls:
+        if cb not in body:
+            continue
+        for a in ct["args"]:
+            apl = mir.op_place(a)
+            if apl is None or f["locals"][apl["l"]] not in ("u64",):
+                continue
+            org = mir.provenance(f, strict, a)
+            if len(org) == 1 and org[0].kind == "local" and org[0].local == prev.local and (f["locals"][prev.local] == "u64" or ".fee" in org[0].proj):
+                fed = True
+    if not fed:
+        return None
+    # inside the loop the variable only ever takes this round's evaluation (its fee)
+    for dd in du.defs.get(prev.local, []):
+        if dd[1] not in body:
+            continue
+        if dd[0] != "stmt" or dd[3]["rv"]["k"] not in ("use", "cast"):
+            return None
+        org = mir.provenance(f, strict, dd[3]["rv"]["op"], transparent_extra=AWAIT)
+        if not (org and all(_pass_result(F, f, o, body) and (f["locals"][prev.local] != "u64" or ".fee" in o.proj) for o in org)):
+            return None
+    return "leaves the loop when this round's %s equals what the round was computed with" % ("evaluation" if whole else "fee")
+
+
 def eval_pass_first_round_is_some(F):
     """in eval_pass, `Ok(None)` (= "nothing better, converged") is returned only when a previous evaluation was
     supplied: dominated by the Some edge of the match on the `last_eval` parameter.  Returns (bool, reason, fn)"""
@@ -109,6 +238,8 @@ def eval_pass_first_round_is_some(F):
     cfg = mir.CFG(f)
     du = mir.DefUse(f)
     les = typed_locals(f, OPT_REF_CT)
+    if not les and loop_form(F) == "value":
+        return True, "value form: the pass function returns every evaluation and the loop compares (see the loop exits)", f
     if not les:
         raise BrokenCheck("the pass function takes no previous evaluation (no Option<&CompiledTx> local): anchor changed")
     sw = []
@@ -217,6 +348,9 @@ def resolve_loop_facts(F):
                             p2 = mir.op_place(rv.get("op")) if rv["k"] == "use" else (rv.get("pl") if rv["k"] == "ref" else None)
                             if p2 is not None:
                                 st.append(p2["l"])
+    if loop_form(F) == "value":
+        # the pass function takes the fee to apply and returns the evaluation; the comparison is made by the loop itself
+        return f, cfg, du, None, calls
     if len(les) != 1:
         raise BrokenCheck("resolve_tx: expected one variable holding the last evaluation (an Option<CompiledTx> whose reference is handed to the pass function), found %d" % len(les))
     le = sorted(les)[0]
@@ -226,7 +360,7 @@ def resolve_loop_facts(F):
 def resolve_unwrap_discharge(F, site):
     """D-FIRSTROUND for `last_eval.unwrap()` in resolve_tx"""
     f, cfg, du, le, calls = resolve_loop_facts(F)
-    if site.fn["path"] != f["path"]:
+    if site.fn["path"] != f["path"] or le is None:
         return None
     t = site.term
     orig = mir.provenance(f, du, t["args"][0])
@@ -321,6 +455,10 @@ def resolve_loop_exits(F):
                     orig = mir.provenance(f, du, {"l": dl, "p": []}) if dl is not None else []
                     if any(o.kind == "call" and o.callee.startswith(resolver_roles(F)[1]) for o in orig):
                         conv = True
+            eq = None if conv else equality_exit(F, f, cfg, du, calls, body, u, v)
+            if eq:
+                out.append(("converged", line, eq))
+                continue
             how = _exit_condition(f, du, u)
             out.append(("converged" if conv else "unconverged: " + how, line,
                         "leaves the loop on eval_pass() == None" if conv else "leaves the loop towards `Ok(..)` (%s) without eval_pass having reported convergence" % how))
@@ -348,12 +486,15 @@ def _exit_condition(f, du, u):
                 if d[0] != "call":
                     rv = d[3]["rv"]
                     if rv["k"] == "binop":
+                        for side in (rv["a"], rv["b"]):
+                            if any(".fee" in o.proj for o in mir.provenance(f, du, side, transparent_extra=AWAIT)):
+                                return "on a `%s` comparison of fees" % rv["op"]
                         return "on a `%s` comparison of a round counter with the bound" % rv["op"]
                     if rv["k"] == "discr":
                         src = mir.provenance(f, du, {"l": rv["pl"]["l"], "p": []})
                         for o in src:
                             if o.kind == "call":
-                                return "when `%s` yields %s" % (o.callee.split("::")[-1], "None" if rv.get("adt", "").endswith("Option") else "another variant")
+                                return "when `%s` yields %s" % ([x for x in o.callee.split("::") if not x.startswith("{closure")][-1], "None" if rv.get("adt", "").endswith("Option") else "another variant")
                         return "on a discriminant test"
     return "unconditionally"
 
